@@ -310,9 +310,9 @@ func main() {
 		Assumptions: []string{"math/big"},
 		Cases: func(t string) int {
 			if t == "thorough" {
-				return len(widths) * 3000
+				return len(widths) * 15000
 			}
-			return len(widths) * 100
+			return len(widths) * 300
 		},
 		Floor: func(t string) int {
 			if t == "thorough" {
